@@ -1137,6 +1137,57 @@ func genStaleCommitCase(r *Rng, id string) *Case {
 	return cs
 }
 
+// genStaleInjectionCase: the witness of `chain_atomic_faults_false` (Proofs/SegmentChainFault.lean), found by the prover
+// on the model and replayed here on the real code. An append fails on its fsync after all its bytes were written (the
+// writer rolls back in memory; the bytes stay behind the tail). Its single payload is adversarial: a filler, then bytes
+// that are themselves a well-formed entry frame followed by a commit frame carrying the CRC-32C of that frame. The next
+// append is acknowledged and shorter: it ends exactly where the embedded entry frame begins. No crash: after a clean
+// restart the recovery scan walks on into the stale bytes, finds an entry and a commit whose CRC genuinely matches the
+// bytes since the previous commit, and the log has one entry more than was ever stored.
+func genStaleInjectionCase(r *Rng, id string) *Case {
+	g := &segGen{r: r, impl: newSegImpl(), tags: map[string]bool{"stale-injection": true, "fault": true}}
+	g.base = pick(r, []uint64{1, 5, 100})
+	g.next = g.base
+	g.size = 4096
+	g.codec = 0
+	g.id = uint64(r.Intn(3))
+	g.do("new " + g.infoArgs())
+	n0 := 1 + r.Intn(3)
+	if g.do("app n"+g.batch(n0)) == "ok" {
+		g.next += uint64(n0)
+	}
+	// the acknowledged replacement: one entry with a payload of p bytes (p a multiple of 8): frame 8+p, commit 8
+	p := 8 * r.Intn(3)
+	inner := r.Bytes(1 + r.Intn(8))
+	var e []byte
+	e = append(e, 1, 0, 0, 0, byte(len(inner)), 0, 0, 0)
+	e = append(e, inner...)
+	for len(e)%8 != 0 {
+		e = append(e, 0)
+	}
+	crc := crc32.Checksum(e, castagnoli)
+	c := []byte{3, 0, 0, 0, byte(crc), byte(crc >> 8), byte(crc >> 16), byte(crc >> 24)}
+	// failed entry's frame starts at the tail: its header (8) + filler (p+8) put the embedded frames at tail+8+p+8
+	payload := append(append(make([]byte, p+8), e...), c...)
+	g.do(fmt.Sprintf("app s %d:%s", g.next, hx(payload)))
+	g.do("last")
+	if g.do(fmt.Sprintf("app n %d:%s", g.next, hx(r.Bytes(p)))) == "ok" {
+		g.next++
+	}
+	g.do("last")
+	if g.do("recover "+g.infoArgs()) == "ok" {
+		g.do("last")
+		for idx := g.base; idx <= g.next+1; idx++ {
+			g.do(fmt.Sprintf("get %d", idx))
+		}
+	}
+	cs := &Case{ID: id, Props: []string{"C01", "C02", "C03", "C09", "C10", "C11", "C15"}, SpecProps: []string{"C09"}, Ops: g.ops, Impl: g.out, Exec: execSegment, Monitor: segMonitor}
+	cs.Tags = []string{"stale-injection"}
+	cs.NonTrivial = true
+	cs.Shape = fmt.Sprintf("stale-injection/%d/%d", p, len(inner))
+	return cs
+}
+
 func suiteSegment(seed uint64, tier string) *Report {
 	rep := newReport("segment", seed, tier)
 	rep.Rule = "generated workloads on one segment file through the real segment.Filer over simfs: appends of varied batch shapes/sizes until sealing, force-seal, I/O faults with partial writes, crash chains (in-flight append torn by an 8-byte-chunk mask, recovery, appends over the stale bytes with aligned shapes, tear again), damaged files (bit flips, splices, truncations, length edits, zero/garbage runs), sealed-reader and dump reads; every output and the file's length+CRC compared with Model.Segment. Non-trivial = hits sealing, a tear, a fault, damage or an error outcome; distinct by the set of such features, segment size and length class."
@@ -1156,6 +1207,9 @@ func suiteSegment(seed uint64, tier string) *Report {
 	for i := 0; i < ninj; i++ {
 		cases = append(cases, genFrameInjectionCase(r.Fork(), fmt.Sprintf("seg-inject-%d-%d", seed, i)))
 		cases = append(cases, genStaleCommitCase(r.Fork(), fmt.Sprintf("seg-stalecommit-%d-%d", seed, i)))
+		if i < 2 {
+			cases = append(cases, genStaleInjectionCase(r.Fork(), fmt.Sprintf("seg-staleinject-%d-%d", seed, i)))
+		}
 	}
 	RunCases("segment", cases, rep)
 	return rep
